@@ -67,6 +67,10 @@ class Ctx:
     # ---- obligations
     def eq(self, a, b, label):
         """a, b: tensors that must be equal in value and shape"""
+        if not isinstance(a, torch.Tensor) and hasattr(a, "to_dense"):
+            a = a.to_dense()
+        if not isinstance(b, torch.Tensor) and hasattr(b, "to_dense"):
+            b = b.to_dense()
         if tuple(a.shape) != tuple(b.shape):
             self.fail(label + ":shape", f"shape {tuple(a.shape)} vs expected {tuple(b.shape)}")
             return
